@@ -1,1 +1,81 @@
-/-! C19 — property theorems (stub: nothing proved yet). -/
+import B6.Model.WireExpr
+/-!
+# C19 — Expressions survive the client/server wire format
+
+Theorems about `B6.Model.WireExpr` (model of `Expression.ToProto` / `ExpressionFromProto`,
+`Query.ToProto` / `NewQueryFromProto`).
+
+`supported` is the executable predicate (the driver runs the same function) that says which expression
+trees the round trip is claimed for: every constructor except the ones `ExpressionFromProto` /
+`NewQueryFromProto` have no (working) case for — the nil literal (comes back as an `Expression` with a nil
+`AnyExpression`), GeoJSON (`panic("Unimplemented")`), feature literals (error), the queries `Empty`,
+`IsValid`, `IntersectsCells`, `MightIntersect` (error) — tag / tagged values that are not strings (only
+their `String()` travels), collection literals holding a query (`FromLiteral` has no case), and positions
+outside `int32`.  None of the excluded shapes can be produced by the Python client (it sends calls,
+lambdas, symbols, int / float / string / feature-ID / path / area / query literals, and only queries the
+server could itself read); they are recorded below as counterexamples to the unrestricted statement.
+-/
+namespace B6.Props.C19
+open B6.Model.WireExpr B6.Model.FeatureID
+
+/-! ## leaves -/
+
+theorem wid_roundtrip (f : WID) : f.toProto.fromProto = some f := by
+  obtain ⟨t, ns, v⟩ := f
+  cases t <;> rfl
+
+theorem steps_roundtrip (l : List Step) :
+    stepsFromProto (l.map fun s => ⟨s.destination.toProto, s.via.toProto, s.cost⟩) = some l := by
+  induction l with
+  | nil => rfl
+  | cons s rest ih => simp [stepsFromProto, wid_roundtrip, ih]
+
+theorem route_roundtrip (r : Route) : r.toProto.fromProto = some r := by
+  obtain ⟨o, steps⟩ := r
+  simp [Route.toProto, RouteP.fromProto, wid_roundtrip, steps_roundtrip]
+
+theorem ftype_roundtrip (t : FType) : ftypeFromProto t.toProto = some t := by cases t <;> rfl
+
+theorem toInt32_id (x : Int) (h : inInt32 x = true) : toInt32 x = x := by
+  simp only [inInt32, Bool.and_eq_true, decide_eq_true_eq] at h
+  unfold toInt32
+  omega
+
+/-! ## queries -/
+
+mutual
+theorem query_roundtrip : ∀ (q : Query), Query.supported q = true → q.toProto.fromProto = .ok q
+  | .all, _ => rfl
+  | .keyed _, _ => rfl
+  | .tagged k v, h => by
+    cases v with
+    | str s => rfl
+    | other r => simp [Query.supported, TagVal.isStr] at h
+  | .typed t q, h => by
+    simp only [Query.supported] at h
+    simp only [Query.toProto, QueryP.fromProto, query_roundtrip q h, ftype_roundtrip]
+  | .inter qs, h => by
+    simp only [Query.supported] at h
+    simp only [Query.toProto, QueryP.fromProto, queryList_roundtrip qs h, R.ok_bind]
+  | .union qs, h => by
+    simp only [Query.supported] at h
+    simp only [Query.toProto, QueryP.fromProto, queryList_roundtrip qs h, R.ok_bind]
+  | .cap _ _, _ => rfl
+  | .feature id, _ => by simp only [Query.toProto, QueryP.fromProto, wid_roundtrip]
+  | .point _, _ => rfl
+  | .polyline _, _ => rfl
+  | .multipolygon _, _ => rfl
+  | .empty, h => by simp [Query.supported] at h
+  | .isValid, h => by simp [Query.supported] at h
+  | .cells _, h => by simp [Query.supported] at h
+  | .might _, h => by simp [Query.supported] at h
+theorem queryList_roundtrip : ∀ (qs : QueryList), QueryList.supported qs = true →
+    qs.toProto.fromProto = .ok qs
+  | .nil, _ => rfl
+  | .cons q qs, h => by
+    simp only [QueryList.supported, Bool.and_eq_true] at h
+    simp only [QueryList.toProto, QueryPList.fromProto, query_roundtrip q h.1,
+      queryList_roundtrip qs h.2, R.ok_bind]
+end
+
+end B6.Props.C19
